@@ -52,7 +52,7 @@ partial def tree? (S : Schema) : Sexp → Option Tree
 def ann? : Sexp → Option Ann
   | .atom "any" => some .any
   | .list [.atom "dom", c] => (nat? c).map .dom
-  | .list [.atom "opt", c] => (nat? c).map .opt
+  | .list (.atom "opt" :: cs) => (cs.mapM nat?).map .opt
   | .list [.atom "list", c] => (nat? c).map .listOf
   | .list [.atom "dictof", c] => (nat? c).map .dictOf
   | .list [.atom "strann", c] => (nat? c).map .strAnn
@@ -81,23 +81,38 @@ def outRes : Except Exn Tree → Sexp
   | .error .valueError => tag "raise" [sym "ValueError"]
   | .error .decodeError => tag "raise" [sym "DecodeError"]
 
+def rtReply (S : Schema) (x : Sexp) : Sexp :=
+  match tree? S x with
+  | some (.obj c ks vs) =>
+    let d := dictify (.obj c ks vs)
+    .list [outTree d, outRes (fromdict S c d)]
+  | _ => sym "bad-request"
+
+def loadReply (S : Schema) (c d : Sexp) : Sexp :=
+  match nat? c, tree? S d with
+  | some c, some d => outRes (fromdict S c d)
+  | _, _ => sym "bad-request"
+
+/-- every call is a function of its own argument only: a history is answered call by call -/
+def stepReply (S : Schema) : Sexp → Sexp
+  | .list [.atom "rt", x] => rtReply S x
+  | .list [.atom "load", c, d] => loadReply S c d
+  | .list [.atom "bad"] => .list [sym "bad"]
+  | _ => sym "bad-request"
+
 def handle : Sexp → Sexp
   | .list [.atom "rt", .list cs, x] =>
     match schema? cs [] with
     | none => sym "bad-request"
-    | some S =>
-      match tree? S x with
-      | some (.obj c ks vs) =>
-        let d := dictify (.obj c ks vs)
-        .list [outTree d, outRes (fromdict S c d)]
-      | _ => sym "bad-request"
+    | some S => rtReply S x
   | .list [.atom "load", .list cs, c, d] =>
-    match schema? cs [], nat? c with
-    | some S, some c =>
-      match tree? S d with
-      | some d => outRes (fromdict S c d)
-      | none => sym "bad-request"
-    | _, _ => sym "bad-request"
+    match schema? cs [] with
+    | some S => loadReply S c d
+    | none => sym "bad-request"
+  | .list [.atom "seq", .list cs, .list steps] =>
+    match schema? cs [] with
+    | some S => .list (steps.map (stepReply S))
+    | none => sym "bad-request"
   | _ => sym "bad-request"
 
 def main : IO Unit := serve handle
